@@ -222,7 +222,7 @@ def run(ctx):
     b = ctx.anchor("R05e", FS_SD + "copy")
     if b:
         bk = [i for i, t in cfg.calls(b) if cfg.callee_decl(t) == "agdb::storage::StorageData::backup"]
-        nw = [i for i, t in cfg.calls(b) if cfg.callee_decl(t) == "agdb::storage::StorageData::new"]
+        nw = common.call_blocks_incl_closures(fa, b, lambda t: cfg.callee_decl(t) == "agdb::storage::StorageData::new")
         ok = bool(bk and nw) and cfg.find_path(b, [0], nw, avoid=bk) is None
         ctx.ob("R05e", "FileStorage::copy", ok, "copy = backup(name)? then new(name)" if ok else
                "FileStorage::copy no longer copies the file before opening it", b.where)
